@@ -8,5 +8,7 @@ git -C /repo worktree add --detach /tmp/wt/$N HEAD >/dev/null 2>&1
 # hard links (copying 5 GB took > 10 min per worktree): cargo replaces the files it rebuilds; registry
 # dependencies stay fresh, workspace crates get new metadata hashes because their path differs
 cp -al /repo/node/target /tmp/wt/$N/node/target
+# the build-directory lock must not be shared between worktrees (a hard-linked lock serialises all builds)
+find /tmp/wt/$N/node/target -name .cargo-lock -exec sh -c 'rm -f "$1"; : > "$1"' _ {} \;
 mkdir -p /tmp/wt/out-$N
 echo /tmp/wt/$N
